@@ -573,6 +573,28 @@ def r30(ctx: Ctx) -> RuleReport:
         if unpack is None:
             raise AnalysisError(f'{fi.fq}: no `var, branches = node` unpacking')
         v_var, v_br = unpack
+        # the input node is read, never written: the (variable, branches) tuple cannot follow a change made to its list
+        rebound = any(isinstance(n, ast.Assign) and any(norm(t) == v_br for t in n.targets) and norm(n.value) != np_ for n in walk_local(fi.node))
+        inplace = []
+        if not rebound:
+            for n in walk_local(fi.node):
+                if isinstance(n, (ast.Assign, ast.AugAssign)):
+                    for tg in (n.targets if isinstance(n, ast.Assign) else [n.target]):
+                        if isinstance(tg, ast.Subscript) and norm(tg.value) == v_br:
+                            inplace.append((n, f'`{norm(tg)} = ...`'))
+                elif isinstance(n, ast.Delete) and any(isinstance(tg, ast.Subscript) and norm(tg.value) == v_br for tg in n.targets):
+                    inplace.append((n, f'`{norm(n)[:40]}`'))
+                elif isinstance(n, ast.Call) and isinstance(n.func, ast.Attribute) and norm(n.func.value) == v_br \
+                        and n.func.attr in ('append', 'extend', 'insert', 'pop', 'remove', 'clear', 'sort', 'reverse'):
+                    inplace.append((n, f'`{norm(n)[:40]}`'))
+        key_ip = f'{fi.fq}: the branch list of the input node is not written'
+        if inplace:
+            n0, what = inplace[0]
+            rep.violation(key_ip, fi.loc(n0), f'{what} changes the list inside the caller\'s node in place. The node is a tuple (variable, branches): its variable cannot be '
+                          f'replaced, so the structure the caller still holds is left half-rewritten (old variable at this node, new content below it), and every other Tree or '
+                          f'sub-tree that shares the node is changed behind its back')
+            continue
+        rep.ok(key_ip, fi.loc())
         loops = [n for n in walk_local(fi.node) if isinstance(n, ast.For) and norm(n.iter) == v_br]
         if not loops and rewrites == 'target' and _r30_comprehension_form(ctx, rep, fi, v_var, v_br):
             continue
